@@ -18,35 +18,37 @@ class CompleteStagePlannerMixin:
     if TYPE_CHECKING:
         repository: WorkflowStore
 
-    def _plan_after_stages(self, stage: StageExecution) -> None:
-        """Plan after stages using the stage definition builder."""
+    def _plan_after_stages(self, stage: StageExecution) -> list[StageExecution]:
+        """Plan after stages using the stage definition builder.
+
+        Returns the new stages. They are NOT persisted here: the caller stores
+        them in the same transaction as the parent stage and their StartStage
+        messages, so a crash cannot leave a partial set behind.
+        """
         builder = get_default_factory().get(stage.type)
         graph = StageGraphBuilder.after_stages(stage)
         builder.after_stages(stage, graph)
 
-        for s in graph.build():
+        new_stages = graph.build()
+        for s in new_stages:
             s.execution = stage.execution
             stage.execution.stages.append(s)  # Add to in-memory list for first_after_stages()
-            self.repository.add_stage(s)
+        return new_stages
 
-    def _plan_on_failure_stages(self, stage: StageExecution) -> bool:
+    def _plan_on_failure_stages(self, stage: StageExecution) -> list[StageExecution]:
         """
         Plan on-failure stages using the stage definition builder.
 
         Returns:
-            True if on-failure stages were added
+            The new on-failure stages (empty if none); persisted by the caller
+            together with the parent's ``_on_failure_planned`` flag.
         """
         builder = get_default_factory().get(stage.type)
         graph = StageGraphBuilder.after_stages(stage)
         builder.on_failure_stages(stage, graph)
 
         new_stages = graph.build()
-        if not new_stages:
-            return False
-
         for s in new_stages:
             s.execution = stage.execution
             stage.execution.stages.append(s)  # Add to in-memory list for first_after_stages()
-            self.repository.add_stage(s)
-
-        return True
+        return new_stages
